@@ -57,6 +57,7 @@ func programs() []*progen.Program {
 	add(progen.FileFlow(progen.FileParams{Out: "f", Prod: "filew", ConsWrap: true, Late: true, TopOut: true, Mode: "rolling", Size: 2}))
 	// wildcard bindings and struct-typed pipeline outputs
 	add(wildcardProgram())
+	add(wildcardStructProgram())
 	add(retainOnlyProgram())
 	add(multiAliasProgram())
 	return out
@@ -124,6 +125,98 @@ func wildcardProgram() *progen.Program {
 	p.Pipelines = append([]*progen.Pipeline{sub}, p.Pipelines...)
 	p.Desc = "wildcard-bindings"
 	return p
+}
+
+// wildcardStructProgram: wildcards over a struct-typed output of a call, a
+// struct-typed pipeline input, the whole of a call next to an explicit
+// binding, and a sub-pipeline handing everything through with wildcards.
+func wildcardStructProgram() *progen.Program {
+	p := progen.Dataflow(progen.DataflowParams{Kind: "int", Src: "gen", Size: 2, Cons: "add"})
+	if p == nil {
+		return nil
+	}
+	I := progen.IntT
+	P := progen.StructT("PAIRAB")
+	p.Structs = append(p.Structs, &progen.StructDecl{Name: "PAIRAB", Fields: []progen.Param{{T: I, Name: "a"}, {T: I, Name: "b"}}})
+	p.Stages = append(p.Stages, &progen.Stage{Name: "MKP", Fn: "GEN", Ins: []progen.Param{{T: I, Name: "n"}},
+		Outs: []progen.Param{{T: P, Name: "p"}, {T: I, Name: "a"}, {T: I, Name: "b"}}},
+		&progen.Stage{Name: "ADDK", Fn: "ADD", Ins: []progen.Param{{T: I, Name: "a"}, {T: I, Name: "b"}, {T: I, Name: "k"}},
+			Outs: []progen.Param{{T: I, Name: "sum"}}})
+	inner := &progen.Pipeline{Name: "INNER", Ins: []progen.Param{{T: P, Name: "s"}, {T: I, Name: "a"}},
+		Outs: []progen.Param{{T: I, Name: "sum"}, {T: I, Name: "sum2"}, {T: I, Name: "sum3"}},
+		Calls: []*progen.Call{
+			{Callee: "MKP", Binds: []progen.Bind{{"n", progen.Self("a")}}},
+			{Callee: "ADD", Alias: "ADD1", Binds: []progen.Bind{{"*", progen.Ref("MKP", "p")}}},
+			{Callee: "ADD", Alias: "ADD2", Binds: []progen.Bind{{"*", progen.Self("s")}}},
+			{Callee: "ADDK", Alias: "ADD3", Binds: []progen.Bind{{"k", progen.Lit(progen.Int(5))}, {"*", progen.Ref("MKP")}}},
+		},
+		Ret: []progen.Bind{{"sum", progen.Ref("ADD1", "sum")}, {"sum2", progen.Ref("ADD2", "sum")}, {"sum3", progen.Ref("ADD3", "sum")}}}
+	outer := &progen.Pipeline{Name: "OUTER", Ins: []progen.Param{{T: P, Name: "s"}, {T: I, Name: "a"}},
+		Outs:  []progen.Param{{T: I, Name: "sum"}, {T: I, Name: "sum2"}, {T: I, Name: "sum3"}},
+		Calls: []*progen.Call{{Callee: "INNER", Binds: []progen.Bind{{"*", progen.Self("")}}}},
+		Ret:   []progen.Bind{{"*", progen.Ref("INNER")}}}
+	top := p.Pipeline("TOP")
+	top.Calls = append(top.Calls, &progen.Call{Callee: "OUTER", Binds: []progen.Bind{
+		{"s", progen.StructE([]string{"a", "b"}, []*progen.Exp{progen.Lit(progen.Int(1)), progen.Self("n")})},
+		{"a", progen.Ref("GEN", "v")}}})
+	top.Outs = append(top.Outs, progen.Param{T: progen.StructT("OUTER"), Name: "wo"}, progen.Param{T: I, Name: "w3"})
+	top.Ret = append(top.Ret, progen.Bind{"wo", progen.Ref("OUTER")}, progen.Bind{"w3", progen.Ref("OUTER", "sum3")})
+	p.Pipelines = append([]*progen.Pipeline{inner, outer}, p.Pipelines...)
+	p.Desc = "wildcard-struct-refs"
+	return p
+}
+
+// wildcardTouched lists the (callable, parameter) pairs of a compiled
+// program which some wildcard binding supplies or consumes: the inputs of a
+// callee the wildcard binds, the inputs of the enclosing pipeline a
+// '* = self' uses, the outputs of the call a '* = CALL' takes, and the
+// outputs of a pipeline whose return uses a wildcard.
+func wildcardTouched(ast *syntax.Ast) map[string]bool {
+	t := map[string]bool{}
+	for _, pipe := range ast.Pipelines {
+		dec := map[string]string{}
+		for _, c := range pipe.Calls {
+			dec[c.Id] = c.DecId
+		}
+		visit := func(bs *syntax.BindStms, callee string) {
+			if bs == nil {
+				return
+			}
+			at := -1
+			for i, b := range bs.List {
+				if b.Id == "*" {
+					at = i
+					break
+				}
+			}
+			if at < 0 {
+				return
+			}
+			ref, ok := bs.List[at].Exp.(*syntax.RefExp)
+			if !ok {
+				return
+			}
+			for _, fb := range bs.List[at+1:] {
+				if callee != "" {
+					t["in:"+callee+"."+fb.Id] = true
+				} else {
+					t["out:"+pipe.Id+"."+fb.Id] = true
+				}
+				if ref.Kind == syntax.KindSelf && ref.Id == "" {
+					t["in:"+pipe.Id+"."+fb.Id] = true
+				} else if ref.Kind == syntax.KindCall && ref.OutputId == "" {
+					t["out:"+dec[ref.Id]+"."+fb.Id] = true
+				}
+			}
+		}
+		for _, c := range pipe.Calls {
+			visit(c.Bindings, c.DecId)
+		}
+		if pipe.Ret != nil {
+			visit(pipe.Ret.Bindings, "")
+		}
+	}
+	return t
 }
 
 func compile(src string) (*syntax.Ast, error) {
@@ -288,7 +381,13 @@ func evalCase(c Case, progs []*progen.Program) (fs []ev.Finding, note string) {
 			return nil, "unspecified: enclosing pipeline input became unused"
 		}
 		kind := "result-does-not-compile"
+		dir := "in:"
+		if strings.HasSuffix(c.Edit, "-output") {
+			dir = "out:"
+		}
 		switch {
+		case c.Param != "" && wildcardTouched(orig)[dir+c.Target+"."+c.Param]:
+			kind += ":parameter-bound-through-wildcard"
 		case c.Edit == "remove-input" && regexp.MustCompile(`map call `+c.Target+`( as \w+)?\(\s*`+c.Param+`\s+= split`).MatchString(src):
 			kind += ":split-argument-of-map-call-removed"
 		case strings.Contains(err.Error(), "RetainParamError"):
@@ -537,6 +636,10 @@ func main() {
 	}
 	var cases []Case
 	for pi, p := range progs {
+		if _, err := compile(p.MRO()); err != nil {
+			// a corpus program the compiler refuses exercises no edit at all
+			r.Inconclusive(fmt.Sprintf("program %d (%s) of the corpus does not compile: %s", pi, p.Desc, ev.Short(err.Error(), 200)))
+		}
 		callables := map[string]bool{}
 		for _, s := range p.Stages {
 			callables[s.Name] = true
@@ -612,7 +715,7 @@ func main() {
 		}
 		cases = append(cases, Case{Prog: pi, Edit: "remove-unused-outputs"}, Case{Prog: pi, Edit: "remove-unused-calls"}, Case{Prog: pi, Edit: "remove-unused-both"})
 	}
-	r.Rule = fmt.Sprintf("%d programs (nested sub-pipelines, map calls, split stage, struct narrowing, projections, aliases, nested disabled modifiers, retains, wildcard bindings, stage outputs whose names are prefixes of each other) x EVERY callable renamed (fresh name, colliding with each aliased call id, and X->Y->X), every input/output parameter renamed (two new names) and removed, plus remove-unused-outputs / remove-unused-calls / both; applied as cmd/mro/edit does (Refactor on compiled trees, Apply on the unchecked tree, Format); "+
+	r.Rule = fmt.Sprintf("%d programs (nested sub-pipelines, map calls, split stage, struct narrowing, projections, aliases, nested disabled modifiers, retains, wildcard bindings over self / a call / a struct-typed output / a struct-typed input with and without explicit bindings next to them and handed through two pipeline levels, a pipeline's name used as a struct type, stage outputs whose names are prefixes of each other) x EVERY callable renamed (fresh name, colliding with each aliased call id, and X->Y->X), every input/output parameter renamed (two new names) and removed, plus remove-unused-outputs / remove-unused-calls / both; applied as cmd/mro/edit does (Refactor on compiled trees, Apply on the unchecked tree, Format); "+
 		"oracle: result compiles; serialized call graph equal after inverse renaming; for removals the remaining nodes' inputs/disabled bindings and the top-level outputs unchanged and no removed node still referenced; X->Y->X restores the canonical tree. distinct = distinct (program, edit, target); non-trivial = the edit changed the text", len(progs))
 	r.Set("cases", len(cases))
 	order := r.Rotate(len(cases))
